@@ -211,9 +211,14 @@ def dumpRoot (enc : Bool) (defs : ObjStm.Defs) (root : Obj) : Out Unit :=
 def shippedCtx : TC.Ctx := Parsley.Gen.CatalogSpec.ctx
 def shippedCat : TC.Chk := Parsley.Gen.CatalogSpec.catalog
 
+/-- the verdict of a machine run (the second component is the work-loop iteration count).  A function rather
+    than the projection `.1`, so that unfolding `typeCheck` does not make the kernel evaluate the run. -/
+def verdictOf : TC.Outcome × Nat → TC.Outcome
+  | (r, _) => r
+
 /-- `check_type(ctxt, &tctx, root_obj, catalog_type(&mut tctx))`, run for the explicit work bound of C09 -/
 def typeCheck (g : TC.Graph) (o : TC.Obj) : TC.Outcome :=
-  (TC.checkTypeFuel TC.Fix.tree g shippedCtx (TC.Term.workBound TC.Fix.tree g shippedCtx o shippedCat) o shippedCat).1
+  verdictOf (TC.checkTypeFuel TC.Fix.tree g shippedCtx (TC.Term.workBound TC.Fix.tree g shippedCtx o shippedCat) o shippedCat)
 
 /-! ## file_extract_text -/
 
